@@ -476,6 +476,28 @@ func (ck *Check) absoluteSet(rule string) {
 
 // literalFields: for a pointer to a freshly allocated struct literal (&T{…}), the terms stored
 // into its fields (last store per field, anywhere in the function).
+// literalFieldValues: the SSA values stored into the fields of a struct literal.
+func literalFieldValues(v ssa.Value) map[string]ssa.Value {
+	out := map[string]ssa.Value{}
+	al, ok := v.(*ssa.Alloc)
+	if !ok {
+		return out
+	}
+	for _, r := range *al.Referrers() {
+		fa, ok := r.(*ssa.FieldAddr)
+		if !ok {
+			continue
+		}
+		f := fieldOfAddr(fa)
+		for _, rr := range *fa.Referrers() {
+			if st, ok := rr.(*ssa.Store); ok && st.Addr == ssa.Value(fa) {
+				out[f.Name()] = st.Val
+			}
+		}
+	}
+	return out
+}
+
 func (ck *Check) literalFields(ctx *Ctx, v ssa.Value) map[string]*Term {
 	out := map[string]*Term{}
 	al, ok := v.(*ssa.Alloc)
@@ -674,38 +696,70 @@ func (ck *Check) acquiredSet(rule string) {
 			}
 		}
 		pr := sliceProv(arg)
-		okv := len(pr.Appends) == 1
-		var why string
-		for _, r := range pr.Roots {
-			if !makeSliceEmpty(r) {
-				okv = false
-				why = "the id list has another origin: " + r.String()
-			}
-		}
-		if okv {
-			ap := pr.Appends[0]
-			l := innermostLoop(os, ap.Call.Block())
-			switch {
-			case ap.Spread == nil:
-				okv, why = false, "ids are not appended as a whole InstanceIds slice"
-			case l == nil || !l.FullTraversal():
-				okv, why = false, "the loop over fleet.Instances can exit early"
-			default:
-				sp := ctx.Term(ap.Spread)
-				okSp := sp.Kind == "field" && sp.Name == "InstanceIds" && sp.Args[0].Kind == "elem"
-				if okSp {
-					over := sp.Args[0].Args[0]
-					okSp = over.Kind == "field" && over.Name == "Instances"
-				}
-				body := And(ctx.BlockPC(l.Header), ctx.edgeCond(l.Header, l.Header.Succs[0]))
-				eq, _, _ := Equivalent(ctx.PC(ap.Call), body)
-				if !okSp || !eq {
-					okv, why = false, "not every InstanceIds of every fleet.Instances entry is appended unconditionally: "+sp.String()
-				}
-			}
-		}
+		okv, why := ck.spreadCollect(os, ctx, arg, 0)
 		ck.cond(okv, rule, key+"/ids", ck.P.instrPos(ci), funcID(os), "the attach step receives every instance id of the fleet response (full nested range, no filter)", provString(ck.P, pr), why)
 	}
+}
+
+// spreadCollect: slice is built by one unconditional `acc = append(acc, x.InstanceIds...)` in a full
+// range over <fleet output>.Instances, starting empty — in fn itself or in a repo helper that fn
+// calls to build it (the helper's parameters bound to the call's arguments).
+func (ck *Check) spreadCollect(fn *ssa.Function, ctx *Ctx, slice ssa.Value, depth int) (bool, string) {
+	pr := sliceProv(slice)
+	for _, r := range pr.Roots {
+		if makeSliceEmpty(r) {
+			continue
+		}
+		if call, ok := r.(*ssa.Call); ok && depth < 2 && len(pr.Appends) == 0 && len(pr.Roots) == 1 {
+			if h := call.Common().StaticCallee(); h != nil && ck.P.inRepo(h) && h.Blocks != nil && h.Signature.Results().Len() == 1 {
+				args := make([]*Term, len(call.Common().Args))
+				for i, av := range call.Common().Args {
+					args[i] = ctx.Term(av)
+				}
+				ch := ctx.child(h, call, args)
+				ch.depth = 0
+				n := 0
+				for _, b := range h.Blocks {
+					ret, ok := b.Instrs[len(b.Instrs)-1].(*ssa.Return)
+					if !ok {
+						continue
+					}
+					n++
+					if okv, why := ck.spreadCollect(h, ch, ret.Results[0], depth+1); !okv {
+						return false, "in " + funcID(h) + ": " + why
+					}
+				}
+				if n == 1 {
+					return true, ""
+				}
+				return false, funcID(h) + " has several returns"
+			}
+		}
+		return false, "the id list has another origin: " + r.String()
+	}
+	if len(pr.Appends) != 1 {
+		return false, fmt.Sprintf("%d append sites", len(pr.Appends))
+	}
+	ap := pr.Appends[0]
+	l := innermostLoop(fn, ap.Call.Block())
+	switch {
+	case ap.Spread == nil:
+		return false, "ids are not appended as a whole InstanceIds slice"
+	case l == nil || !l.FullTraversal():
+		return false, "the loop over fleet.Instances can exit early"
+	}
+	sp := ctx.Term(ap.Spread)
+	okSp := sp.Kind == "field" && sp.Name == "InstanceIds" && sp.Args[0].Kind == "elem"
+	if okSp {
+		over := sp.Args[0].Args[0]
+		okSp = over.Kind == "field" && over.Name == "Instances"
+	}
+	body := And(ctx.BlockPC(l.Header), ctx.edgeCond(l.Header, l.Header.Succs[0]))
+	eq, _, _ := Equivalent(ctx.PC(ap.Call), body)
+	if !okSp || !eq {
+		return false, "not every InstanceIds of every fleet.Instances entry is appended unconditionally: " + sp.String()
+	}
+	return true, ""
 }
 
 // chunkLoop: head/tail chunking `for k < len(s) { s, b = s[k:], s[0:k:k]; use(b) }; use(s)`.
@@ -803,16 +857,18 @@ func (ck *Check) attachChunking(rule string) *chunkLoop {
 	ck.cond(isParam, rule, funcID(fn)+"/chunk-input", ck.P.instrPos(cl.S), funcID(fn), "the chunked slice is the instance list parameter", cl.Init.String(), "")
 	ctx := ck.P.NewCtx(fn)
 	inLoop, after := 0, 0
-	for _, w := range a.W {
-		if w.Class != "W-ASG-ATT" {
-			continue
-		}
+	sites, stray := ck.effSites("W-ASG-ATT", fn)
+	for _, w := range stray {
+		ck.fail(rule, ck.P.siteKey(w.Call), ck.P.instrPos(w.Call), funcID(w.Fn), "AttachInstances is issued only by the attach step", funcID(w.Fn), "")
+	}
+	seenW := map[*ssa.Function]bool{}
+	for _, w := range sites {
 		key := ck.P.siteKey(w.Call)
-		if w.Fn != fn {
-			ck.fail(rule, key, ck.P.instrPos(w.Call), funcID(w.Fn), "AttachInstances is issued only by the attach step", funcID(w.Fn), "")
-			continue
+		if w.Wrapper != nil && !seenW[w.Wrapper] {
+			seenW[w.Wrapper] = true
+			ck.wrapperFaithful(rule, w)
 		}
-		flds := ck.literalFields(ctx, w.Call.Common().Args[0])
+		flds := ck.literalFields(w.Ctx, w.In.Common().Args[0])
 		ids := flds["InstanceIds"]
 		nm := flds["AutoScalingGroupName"]
 		okNM := isAwsHelper(nm, "String") && nm.Args[0].Kind == "field" && nm.Args[0].Name == "id"
@@ -865,6 +921,16 @@ func checkC18(ck *Check) {
 		return nil
 	}
 	nerr, nok := 0, 0
+	attSites, _ := ck.effSites("W-ASG-ATT", fn)
+	{
+		seenW := map[*ssa.Function]bool{}
+		for _, w := range attSites {
+			if w.Wrapper != nil && !seenW[w.Wrapper] {
+				seenW[w.Wrapper] = true
+				ck.wrapperFaithful("C18.R5", w)
+			}
+		}
+	}
 	for _, b := range fn.Blocks {
 		r, ok := b.Instrs[len(b.Instrs)-1].(*ssa.Return)
 		if !ok || b == fn.Recover {
@@ -905,9 +971,8 @@ func checkC18(ck *Check) {
 		at := ctx.Term(arg)
 		// which attach call failed on this path?
 		var failed *ssa.Call
-		for _, w := range a.W {
-			if w.Class == "W-ASG-ATT" && w.Fn == fn {
-				c := w.Call.(*ssa.Call)
+		for _, w := range attSites {
+			if c, ok := w.Call.(*ssa.Call); ok {
 				if c.Block().Dominates(b) && c.Block() != b {
 					if failed == nil || failed.Block().Dominates(c.Block()) {
 						failed = c
@@ -1079,21 +1144,20 @@ func (ck *Check) terminateChunking(rule string) {
 	a := ck.A
 	fn := a.AwsTerminateOrphans
 	ctx := ck.P.NewCtx(fn)
-	var site *Site
-	for i := range a.W {
-		if a.W[i].Class == "W-EC2-TERM" {
-			if a.W[i].Fn != fn {
-				ck.fail(rule, ck.P.siteKey(a.W[i].Call), ck.P.instrPos(a.W[i].Call), funcID(a.W[i].Fn), "TerminateInstances is issued only by the orphan terminator", "", "")
-				continue
-			}
-			site = &a.W[i]
-		}
+	sites, stray := ck.effSites("W-EC2-TERM", fn)
+	for _, w := range stray {
+		ck.fail(rule, ck.P.siteKey(w.Call), ck.P.instrPos(w.Call), funcID(w.Fn), "TerminateInstances is issued only by the orphan terminator", "", "")
 	}
-	if site == nil {
+	if len(sites) == 0 {
 		ck.lost(rule, "TerminateInstances site", "none")
 		return
 	}
-	call := site.Call.(*ssa.Call)
+	es := sites[len(sites)-1]
+	call, isCall := es.Call.(*ssa.Call)
+	if !isCall {
+		ck.fail(rule, ck.P.siteKey(es.Call), ck.P.instrPos(es.Call), funcID(fn), "TerminateInstances is an ordinary call", "deferred / go call", "")
+		return
+	}
 	key := ck.P.siteKey(call)
 	outer := innermostLoop(fn, call.Block())
 	if outer == nil {
@@ -1174,25 +1238,40 @@ func (ck *Check) terminateChunking(rule string) {
 		}
 	}
 	ck.cond(okBatch, rule, key+"/batch", ck.P.instrPos(call), funcID(fn), "batch = ids[i : min(i+k, len(ids))]", fmt.Sprint(batch), "the batch bounds do not partition the id list")
-	// the ids sent: StringSlice(acc) with acc collected from the current batch only
-	flds := ck.literalFields(ctx, call.Common().Args[0])
+	// the ids sent: StringSlice(x) with x holding exactly the ids of the current batch: collected by
+	// one append per element, or written index by index into a make of the batch's length — in the
+	// loop body itself, or in the thin wrapper that is handed the batch
+	idsFn, ictx := fn, ctx
+	var B ssa.Value = batch
+	if es.Wrapper != nil {
+		idsFn, ictx, B = es.Wrapper, es.Ctx, nil
+		for i, av := range call.Common().Args {
+			if batch != nil && av == ssa.Value(batch) && i < len(es.Wrapper.Params) {
+				B = es.Wrapper.Params[i]
+			}
+		}
+	}
+	flds := ck.literalFields(ictx, es.In.Common().Args[0])
 	ids := flds["InstanceIds"]
 	okIDs := false
 	why := "InstanceIds is not StringSlice(<ids collected from the current batch>)"
-	if isAwsHelper(ids, "StringSlice") {
+	if B == nil {
+		why = "the wrapper around TerminateInstances is not handed the current batch"
+	} else if isAwsHelper(ids, "StringSlice") {
 		accV := ids.Args[0].Val
-		if ph, ok := accV.(*ssa.Phi); ok {
-			acc := accumulatorOf(ph)
-			if acc != nil && acc.Loop != outer && outer.Blocks[acc.Loop.Header] && len(acc.Other) == 0 {
+		switch x := accV.(type) {
+		case *ssa.Phi:
+			acc := accumulatorOf(x)
+			if acc != nil && len(acc.Other) == 0 && (es.Wrapper != nil || (acc.Loop != outer && outer.Blocks[acc.Loop.Header])) {
 				// inner loop ranges over the batch, full traversal, one append per element
-				full := acc.Loop.FullTraversal() && acc.Loop.Over == ssa.Value(batch) && len(acc.Appends) == 1 && len(acc.Appends[0].Elems) == 1
+				full := acc.Loop.FullTraversal() && acc.Loop.Over == B && len(acc.Appends) == 1 && len(acc.Appends[0].Elems) == 1
 				// F3: the accumulator must start empty in every outer iteration
 				fresh := false
-				switch x := acc.Init.(type) {
+				switch iv := acc.Init.(type) {
 				case *ssa.Const:
-					fresh = x.Value == nil
+					fresh = iv.Value == nil
 				case *ssa.MakeSlice:
-					fresh = makeSliceEmpty(x) && outer.Blocks[x.Block()]
+					fresh = makeSliceEmpty(iv) && (es.Wrapper != nil || outer.Blocks[iv.Block()])
 				}
 				switch {
 				case !full:
@@ -1202,6 +1281,40 @@ func (ck *Check) terminateChunking(rule string) {
 				default:
 					okIDs = true
 				}
+			}
+		case *ssa.MakeSlice:
+			// ids := make([]string, len(batch)); for i := range batch { ids[i] = *batch[i] }
+			lc, isLen := isBuiltinCall(x.Len, "len")
+			sized := isLen && lc.Common().Args[0] == B && (x.Cap == x.Len)
+			fresh := es.Wrapper != nil || outer.Blocks[x.Block()]
+			stores, good := 0, 0
+			for _, r := range *x.Referrers() {
+				ia, ok := r.(*ssa.IndexAddr)
+				if !ok {
+					continue
+				}
+				for _, rr := range *ia.Referrers() {
+					if st, ok := rr.(*ssa.Store); ok && st.Addr == ssa.Value(ia) {
+						stores++
+						l := innermostLoop(idsFn, st.Block())
+						if l != nil && l.Over == B && l.FullTraversal() && l.Idx != nil && ia.Index == l.Idx {
+							body := And(ictx.BlockPC(l.Header), ictx.edgeCond(l.Header, l.Header.Succs[0]))
+							if eq, _, _ := Equivalent(ictx.PC(st), body); eq {
+								good++
+							}
+						}
+					}
+				}
+			}
+			switch {
+			case !sized:
+				why = "the id slice is not made with the length of the current batch"
+			case !fresh:
+				why = "the id slice is shared across batches"
+			case stores != 1 || good != 1:
+				why = "the id slice is not filled by one unconditional store per element of the current batch"
+			default:
+				okIDs = true
 			}
 		}
 	}
@@ -1318,7 +1431,7 @@ func checkC19(ck *Check) {
 		node.Typ = sl.Elem()
 	}
 	// R2 membership
-	belongs := Atom(&Term{Kind: "call", Name: funcID(a.AwsBelongs), Fn: a.AwsBelongs, Obj: a.AwsBelongs.Object(), Args: []*Term{recv, node}})
+	belongs := boolResultFormula(ctx, a.AwsBelongs, []*Term{recv, node}, 0)
 	ck.entails("C19.R2", key+"/member", call, pc, belongs, "PC(terminate) ⇒ Belongs(node) for the node of this iteration")
 	foundNG := false
 	for b := range loop.Blocks {
@@ -1351,13 +1464,15 @@ func checkC19(ck *Check) {
 	iid := flds["InstanceId"]
 	okID := false
 	whyID := "InstanceId is not the id of the ASG instance matched by provider id"
-	if iid != nil {
-		if ph, ok := iid.Val.(*ssa.Phi); ok {
+	if iidV := literalFieldValues(call.Common().Args[0])["InstanceId"]; iid != nil && iidV != nil {
+		// the defining cases of the id: the edges of a φ fed by the search loop, or the return
+		// sites of a search helper (parameters bound to this call's arguments)
+		cases := ck.valueCases(ctx, FTrue, iidV, 0)
+		if len(cases) > 1 {
 			okID = true
-			b := ph.Block()
 			nonNil := 0
-			for i, e := range ph.Edges {
-				et := ctx.Term(e)
+			for _, vc := range cases {
+				et := vc.term
 				if et.Kind == "const" && et.Name == "nil" {
 					continue
 				}
@@ -1372,7 +1487,7 @@ func checkC19(ck *Check) {
 				}
 				if okE {
 					match := cmpFormula(token.EQL, ck.nodeField(node, "Spec", "ProviderID"), &Term{Kind: "call", Name: funcID(a.AwsInstToProv), Fn: a.AwsInstToProv, Obj: a.AwsInstToProv.Object(), Args: []*Term{inst}})
-					imp, _, _ := Entails(ctx.edgePC(b.Preds[i], b), match)
+					imp, _, _ := Entails(vc.guard, match)
 					okE = imp
 				}
 				if !okE {
@@ -1861,4 +1976,80 @@ func (ck *Check) exitAfterDisposition(rule string) {
 	ck.Stats[rule+" may-exit call sites on the fleet path"] = nExit
 	ck.Stats[rule+" disposition call sites on the fleet path"] = nDisp
 	ck.floor(rule, "disposition call sites on the fleet path", nDisp, 4)
+}
+
+// effSite is a write site as seen from the function that plays the structural role: the write call
+// itself, or the call of a thin wrapper around it (then Ctx binds the wrapper's parameters to the
+// arguments of that call, so the literal's fields read in the caller's vocabulary).
+type effSite struct {
+	Call    ssa.CallInstruction // in fn
+	Ctx     *Ctx
+	In      ssa.CallInstruction // the write call proper
+	Wrapper *ssa.Function
+}
+
+// effSites lists the write sites of class as seen from fn; sites elsewhere are returned in stray.
+func (ck *Check) effSites(class string, fn *ssa.Function) (sites []effSite, stray []Site) {
+	ctx := ck.P.NewCtx(fn)
+	for _, w := range ck.A.W {
+		if w.Class != class {
+			continue
+		}
+		if w.Fn == fn {
+			sites = append(sites, effSite{Call: w.Call, Ctx: ctx, In: w.Call})
+			continue
+		}
+		if c, ok := ck.A.thinWrapper(w); ok && c == fn {
+			for _, ci := range callsTo(fn, w.Fn) {
+				call, isCall := ci.(*ssa.Call)
+				if !isCall {
+					continue
+				}
+				args := make([]*Term, len(call.Common().Args))
+				for i, av := range call.Common().Args {
+					args[i] = ctx.Term(av)
+				}
+				ch := ctx.child(w.Fn, call, args)
+				ch.depth = 0
+				sites = append(sites, effSite{Call: ci, Ctx: ch, In: w.Call, Wrapper: w.Fn})
+			}
+			continue
+		}
+		stray = append(stray, w)
+	}
+	return
+}
+
+// wrapperFaithful: a thin wrapper with an error result returns the write's error unchanged (so the
+// caller's error handling is the write's error handling).
+func (ck *Check) wrapperFaithful(rule string, es effSite) {
+	if es.Wrapper == nil {
+		return
+	}
+	res := es.Wrapper.Signature.Results()
+	if res.Len() == 0 {
+		return
+	}
+	c, ok := es.In.(*ssa.Call)
+	if !ok || !isErrorType(res.At(res.Len()-1).Type()) {
+		return
+	}
+	ctx := ck.P.NewCtx(es.Wrapper)
+	ct := ctx.Term(c)
+	n := 1
+	if tup, ok := c.Type().(*types.Tuple); ok {
+		n = tup.Len()
+	}
+	okv := true
+	for _, b := range es.Wrapper.Blocks {
+		r, isRet := b.Instrs[len(b.Instrs)-1].(*ssa.Return)
+		if !isRet || !(c.Block().Dominates(b)) {
+			continue
+		}
+		rt := ctx.Term(r.Results[len(r.Results)-1])
+		if !(rt.Key() == ct.Key() && n == 1) && !isExtractOf(rt, n-1, func(t *Term) bool { return t.Key() == ct.Key() }) {
+			okv = false
+		}
+	}
+	ck.cond(okv, rule, funcID(es.Wrapper)+"/error-returned", ck.P.instrPos(c), funcID(es.Wrapper), "the wrapper returns the write's error unchanged", "", "the failure of "+calleeName(c)+" is swallowed or replaced inside "+funcID(es.Wrapper))
 }
